@@ -9,6 +9,8 @@ def check(tier, seed):
     guards = [("contracts.bd_guards", "unit_h0_guards", {"nb": nb, "hermitian": h, "timeout_ms": t}) for nb, h in ((2, True), (2, False), (3, True))]
     if tier == "thorough":
         guards += [("contracts.bd_guards", "unit_h0_guards", {"nb": 3, "hermitian": False, "timeout_ms": t}), ("contracts.bd_guards", "unit_h0_guards", {"nb": 1, "hermitian": True, "timeout_ms": t})]
+    guards += [("contracts.bd_guards", "unit_check_biorthonormality", {"nsub": n, "timeout_ms": t}) for n in (1, 2, 3)]
+    guards += [("contracts.bd_guards", "unit_normalize_subspaces", {"timeout_ms": t})]
     from .format_props import specs_keys
     d.add_units(fold_canaries(run_units(specs_solver(tier) + specs_masks(tier) + guards + specs_keys(tier))))
     d.assumptions += [
@@ -17,7 +19,8 @@ def check(tier, seed):
     ]
     d.not_decided += [
         "guards other than those under contract (solve_sylvester_diagonal first use, mask fragment, H_0 block-diagonality / zero-diagonal guard, format converters): "
-        "bi-orthonormality, mutually exclusive options, implicit-mode restrictions are exercised by the bounded battery section 'illposed' only",
+        "mutually exclusive options and implicit-mode restrictions are exercised by the bounded battery section 'illposed' only; for bi-orthonormality the "
+        "decision procedure (np.allclose of L^dagger R with the identity) is taken from numpy",
     ]
     d.explanation = ("Exceptional postconditions proved on the real code: shared energies between coupled blocks raise ValueError on first use of the pair for "
                      "every block index pair (either orientation) and every right-hand-side type; an accepted pair has |E_a-F_b| > atol everywhere, so every "
